@@ -5,6 +5,16 @@ import json, subprocess, os
 ROOT = os.path.dirname(os.path.abspath(__file__))
 
 CHECKS = {
+ "C15": dict(
+  technique="boundary enumeration + rapid random doubles and strings; oracles: read-back (exact), shortest-digits bound, NFC / canonical-equivalence via x/text/norm, metamorphic relation between দেখাও v, \"\" + v, \"p\" + v and v inside arrays/objects",
+  text="Each value is printed six ways (alone, \"\"+v, \"p\"+v, [v], {k: v}, nested). Numbers: boundary doubles (+-0, smallest subnormal, 2^53+-1, powers of ten 1e-6..1e23 with both neighbours, 999999/1e6/1e6+1, 1-17 digit runs, non-finite) and random doubles over bit patterns, short decimals and 15-17 digit values; integer-typed bitwise results up to 2^63. The numeral must read back to exactly that double (or be the exact integer), use no more significant digits than the shortest round-trip numeral, be a plain integer below one million; every দেখাও ends in exactly one newline; \"\"+v and \"p\"+v splice character for character what দেখাও prints. Strings: every code point of the Bangla block in four positions, composing sequences, random mixes of Latin/Bangla/marks/spaces/newlines: output must be NFC and canonically equivalent to the source, alone and inside containers. Exploration.",
+  note="Trusted: strconv.ParseFloat/FormatFloat for read-back and shortest digits, x/text/unicode/norm. Spelling of non-finite values and container punctuation are not asserted.",
+  ref="4 C15"),
+ "C16": dict(
+  technique="purely metamorphic enumeration: context-with-a-hole x value x producer; two programs that differ only in how the same string or number is produced must have identical stdout, outcome class, first diagnostic and line",
+  text="281 one-line contexts (each operand position of every operator against 7 other operands, unary operators, conditions, logical operators, index read/store, রিমুভ, কি_রিমুভ key, printing alone / in arrays / in objects / nested, property and element stores, concatenation on either side, == and != in one- and two-hole form, every built-in argument position) x 8 strings (empty, plain, numeric-looking in both scripts, blank, nan) x 8-10 string producers (literal, concatenation, property of a literal, element, function result, parameter, assigned property, variable, ইনপুট plain and padded) and x 6 numbers (0, 3, -1, 10^6, 2^53, 12) x 9-15 number producers (literal in both scripts, arithmetic, every bitwise operator, লেন, রাউন্ড, পরমমান, min/max, containers, parameter, function result, variable). Every producer is compared with the literal producer (so all pairs by transitivity). Exhaustive over this product in both tiers.",
+  note="No model is involved; the only assumption is that both programs are deterministic (C13).",
+  ref="4 C16"),
  "C14": dict(
   technique="exhaustive context x probe-value enumeration + rapid nested expressions whose leaves are side-effecting probes (calls printing a tag, assignments used as expressions), oracle = reference evaluator on the tag trace and the printed result",
   text="Every binary and logical operator spelling x every ordered pair of 18 probe values (every value kind, both truthiness classes, NaN, -0, empty string by literal and by concatenation), every condition/!/logical context x every probe value, 15 three-probe contexts (array and object literals, call arguments, var lists, index read/store, property store, mixed precedence, nested calls) x 64 value triples, store/callee/assignment-order contexts, and random nestings with 2-8 probes: the tag trace must be the left-to-right reading order with each tag once, skipped operands must not appear, logical operators yield the deciding operand itself, and the truthiness table is the same in conditions, ! and logical operators. Exploration.",
